@@ -39,6 +39,10 @@ type Chan struct {
 	ReadSize int    `json:"read_size,omitempty"`
 	LazyRead bool   `json:"lazy_read,omitempty"` // local readers start reading only when the system is idle
 	CloseMid bool   `json:"close_mid,omitempty"` // system A: local closes the channel, then writes once more
+	// PeerEnds (system B): what the peer sends after its last data packet:
+	// "" nothing, "eof" CHANNEL_EOF, "close" CHANNEL_CLOSE, "eof+close" both.
+	// Buffered data must stay readable afterwards.
+	PeerEnds string `json:"peer_ends,omitempty"`
 }
 
 type Send struct {
@@ -123,6 +127,7 @@ func gen(r *rand.Rand, prop, tier string, index int) any {
 			}
 			c.Send = append(c.Send, sd)
 		}
+		c.PeerEnds = []string{"", "", "eof", "close", "eof+close"}[r.IntN(5)]
 		if big && c.ReadSize < 1000 {
 			c.ReadSize = 1000 + r.IntN(50000) // byte-wise reads of megabytes only cost time
 		}
@@ -585,6 +590,21 @@ func (r *run) sender(pc *pchan) {
 		pc.sendOff += n
 		pc.used += uint64(n)
 	}
+	switch cs.PeerEnds {
+	case "eof", "eof+close":
+		p := []byte{96, 0, 0, 0, 0}
+		binary.BigEndian.PutUint32(p[1:], pc.localID)
+		r.peer.WritePacket(p)
+		rt.Fault("peer-eof-with-data-buffered")
+	}
+	switch cs.PeerEnds {
+	case "close", "eof+close":
+		p := []byte{97, 0, 0, 0, 0}
+		binary.BigEndian.PutUint32(p[1:], pc.localID)
+		pc.closed = true
+		r.peer.WritePacket(p)
+		rt.Fault("peer-close-with-data-buffered")
+	}
 	pc.finished = true
 }
 
@@ -724,6 +744,7 @@ func shrink(scn any) []any {
 			func(c *Chan) bool { if len(c.Send) > 1 { c.Send = c.Send[1:]; return true }; return false },
 			func(c *Chan) bool { if c.CloseMid { c.CloseMid = false; return true }; return false },
 			func(c *Chan) bool { if c.LazyRead { c.LazyRead = false; return true }; return false },
+			func(c *Chan) bool { if c.PeerEnds != "" { c.PeerEnds = ""; return true }; return false },
 		} {
 			cc := c
 			cc.Data = append([]int(nil), c.Data...)
